@@ -62,6 +62,26 @@ CHECKS["C17"] = dict(
     ref="5 (C17)",
 )
 
+CHECKS["C03"] = dict(
+    category="exploration",
+    technique="reference-encoded files from a logical movie x physical layout model; per-sample oracle on the real reader; exhaustive small stratum",
+    text=("The library only reads files produced by an independent encoder, so reader and writer cannot agree on a shared mistake. Every "
+          "composition of N <= 6 (7) samples into chunks with every stsc run-length grouping is enumerated and crossed with the other table "
+          "encodings; large random movies with interleaved tracks extend the reach. All of sample_count, sample_offset and read_sample are "
+          "compared for every id from 0 to beyond the count."),
+    note="Trusted base: refenc.rs/model.rs; each case also cross-checks model vs refdec.rs (rule oracle_inconsistent depends on harness code only).",
+    ref="5 (C03), Appendix A",
+)
+CHECKS["C09"] = dict(
+    category="exploration",
+    technique="reference-encoded fragmented movies (flag lattice exhaustive for small shapes, random beyond), read as one stream and as init+media segment; per-sample oracle",
+    text=("Enumerates the base-offset / default-duration / per-sample-duration / composition-offset / tfdt-version / data-offset lattice for 1-2 "
+          "fragments and explores larger multi-track multi-fragment movies randomly; both delivery modes are compared sample by sample with the model. "
+          "Known finding K2 (single trex) is attributed only on its trigger and probed every run."),
+    note="One run per traf, sizes per sample, tfdt present; sync not compared. K2 in KNOWN_FINDINGS.txt.",
+    ref="5 (C09), 7 (K2), Appendix E",
+)
+
 PENDING_REASON = "monitor not yet registered in this commit (implementation in progress, see DESIGN.md section 11); not claimed until its check is silent on the unchanged tree"
 
 def mk():
